@@ -134,6 +134,37 @@ def main():
             if got != exp:
                 res.fail("corr:pauli_product", f"model {got} != implementation {exp}", info)
     res.sample(infos[0])
+    # label identity: many labels alive at once on indices whose decimal digits can be confused
+    # (1, 2, 3, 12, 23, 123, 1231, ...): content, equality, hash and str must be those of the pairs given
+    pool = [0, 1, 2, 3, 10, 11, 12, 13, 20, 21, 23, 30, 31, 32, 100, 101, 110, 112, 121, 123, 131, 211, 213, 231, 312,
+            1123, 1231, 2311, 10 ** 6]
+    alive = []
+    for _ in range(1500 if a.tier == "quick" else 20000):
+        k = rng.randint(1, 3)
+        pairs = tuple(sorted((i, rng.randint(1, 3)) for i in rng.sample(pool, k)))
+        how = rng.randrange(3)
+        if how == 0:
+            lab = PauliLabel(pairs)
+        elif how == 1:
+            lab = PauliLabel.from_index_and_pauli_list([i for i, _ in pairs], [p for _, p in pairs])
+        else:
+            from quri_parts.core.operator import pauli_label as _pl
+            lab = _pl(" ".join("XYZ"[p - 1] + str(i) for i, p in pairs))
+        alive.append((pairs, lab))
+    seen = {}
+    for pairs, lab in alive:
+        res.count(("label", pairs), nontrivial=True, bucket="label_identity")
+        got = tuple(sorted((int(i), int(p)) for i, p in lab))
+        want_str = " ".join("XYZ"[p - 1] + str(i) for i, p in pairs)
+        if got != pairs or str(lab) != want_str:
+            res.fail("corr:pauli_label:content", f"label built from {pairs} has content {got} / str {str(lab)!r}",
+                     {"pairs": pairs})
+            break
+        if pairs in seen and (seen[pairs] != lab or hash(seen[pairs]) != hash(lab) or seen[pairs] is not lab):
+            res.fail("corr:pauli_label:identity", f"two constructions of {pairs} are not equal / hash-equal / identical",
+                     {"pairs": pairs})
+            break
+        seen[pairs] = lab
     res.emit()
 
 
